@@ -67,7 +67,7 @@ type OpJS struct {
 
 type Case struct {
 	ID     int       `json:"id"`
-	Kind   string    `json:"kind"` // seq | conc | limit | evict
+	Kind   string    `json:"kind"` // seq | conc | limit | evict | lin | list
 	Cfg    PoolCfg   `json:"cfg"`
 	NAccts int       `json:"naccts"`
 	Blocks []BlockJS `json:"blocks"`
@@ -76,6 +76,9 @@ type Case struct {
 	Alts   [][]int   `json:"alts,omitempty"` // concurrent cases: candidate linearisations (op indices)
 	Final  *Snap     `json:"final,omitempty"`
 	Note   string    `json:"note,omitempty"`
+	// list cases (list.go): one stand-alone txList
+	LStrict bool    `json:"lstrict,omitempty"`
+	LOps    []LOpJS `json:"lops,omitempty"`
 }
 
 // run is one case being executed against a real pool.
@@ -464,7 +467,7 @@ func (c *Case) coqHeader() string {
 	for i, t := range c.Txs {
 		ts[i] = t.Coq()
 	}
-	return fmt.Sprintf("(%d, Cfg %d %d %d %d %d, %d, %d, %s, [%s], ", c.ID, g.PriceBump, g.AccountSlots, g.GlobalSlots, g.AccountQueue, g.GlobalQueue,
+	return fmt.Sprintf("inl (%d, Cfg %d %d %d %d %d, %d, %d, %s, [%s], ", c.ID, g.PriceBump, g.AccountSlots, g.GlobalSlots, g.AccountQueue, g.GlobalQueue,
 		g.PriceLimit, c.NAccts, c.Blocks[0].State.Coq(), strings.Join(ts, ";"))
 }
 
@@ -488,7 +491,7 @@ func (c *Case) coqSeq() string {
 
 var (
 	priceDomain = []uint64{1, 2, 3, 5, 9, 10, 11, 12, 20, 21, 22, 40, 100}
-	balDomain   = []uint64{21000 * 15, 21000*60 + 500, 1000000000000}
+	balDomain   = []uint64{21000 * 15, 21000*60 + 500, 1000000000000, 1000000000000}
 )
 
 type gen struct {
@@ -589,7 +592,142 @@ func (g *gen) pickTx(a int) TxSpec {
 		gas = 6000000
 	}
 	value := pick(r, []uint64{0, 0, 0, 7, 7, 210000})
+	if old != nil {
+		// a replacement may also move more value or use more gas than anything the list has
+		// seen so far (the list's cached cost / gas thresholds must follow), or less
+		switch r.Pick(50, 14, 12, 12, 12) {
+		case 1:
+			value = old.Value + pick(r, []uint64{1, 50000, 210000, 1000000})
+		case 2:
+			gas = old.Gas + pick(r, []uint64{1, 1000, 29000})
+		case 3:
+			value = old.Value + pick(r, []uint64{1, 50000, 210000})
+			gas = old.Gas + pick(r, []uint64{1, 9000})
+		case 4:
+			value = old.Value / 2
+			gas = 21000
+		}
+	}
 	return TxSpec{From: a, Nonce: nonce, Price: price, Gas: gas, Value: value}
+}
+
+// poolSpecs lists the transactions account a has in the pool (pending then queue).
+func (g *gen) poolSpecs(a int) []TxSpec {
+	v := g.x.last.Accts[a]
+	var out []TxSpec
+	for _, id := range append(append([]int{}, v.Pending...), v.Queue...) {
+		if id >= 0 {
+			out = append(out, g.x.u.specs[id])
+		}
+	}
+	return out
+}
+
+// boundaryBalance picks a balance at a boundary derived from what account a has in the
+// pool and had there before: the cost of one of its transactions (preferably the most
+// expensive one), the cost of a former occupant of one of its slots (the value a cached
+// threshold may still have), one below / one above, a value between the two highest
+// costs, or zero. minNonce: only slots that are still executable after the block.
+func (g *gen) boundaryBalance(a int, minNonce uint64) (uint64, bool) {
+	r := g.rng
+	var costs []uint64
+	inPool := g.poolSpecs(a)
+	for _, sp := range inPool {
+		if c := sp.Cost(); sp.Nonce >= minNonce && c.IsUint64() {
+			costs = append(costs, c.Uint64())
+		}
+	}
+	if len(costs) == 0 {
+		return 0, false
+	}
+	sort.Slice(costs, func(i, j int) bool { return costs[i] > costs[j] })
+	var former []uint64 // costs of other transactions of the universe for slots the pool holds
+	for _, sp := range g.x.u.specs {
+		if sp.From != a {
+			continue
+		}
+		for _, q := range inPool {
+			if q.Nonce == sp.Nonce && q != sp {
+				if c := sp.Cost(); c.IsUint64() {
+					former = append(former, c.Uint64())
+				}
+				break
+			}
+		}
+	}
+	var b uint64
+	switch r.Pick(30, 20, 20, 20, 10) {
+	case 0:
+		b = costs[0]
+	case 1:
+		b = pick(r, costs)
+	case 2: // between the highest cost and the next distinct one (or a former occupant's cost)
+		lo := uint64(0)
+		for _, c := range append(append([]uint64{}, costs...), former...) {
+			if c < costs[0] && c > lo {
+				lo = c
+			}
+		}
+		if r.Chance(50) {
+			b = lo
+		} else {
+			b = lo + (costs[0]-lo)/2
+		}
+		return b, true
+	case 3:
+		if len(former) > 0 {
+			b = pick(r, former)
+		} else {
+			b = costs[len(costs)-1]
+		}
+	default:
+		return 0, true
+	}
+	switch r.Pick(40, 35, 25) {
+	case 0:
+		if b > 0 {
+			b--
+		}
+	case 2:
+		b++
+	}
+	return b, true
+}
+
+// boundaryGasLimit picks a block gas limit at the gas of a pooled transaction, one below
+// or one above (preferably the largest gas in the pool, or a former occupant's gas).
+func (g *gen) boundaryGasLimit() (uint64, bool) {
+	r := g.rng
+	var gases []uint64
+	for a := 0; a < g.x.c.NAccts; a++ {
+		for _, sp := range g.poolSpecs(a) {
+			gases = append(gases, sp.Gas)
+		}
+	}
+	if len(gases) == 0 {
+		return 0, false
+	}
+	sort.Slice(gases, func(i, j int) bool { return gases[i] > gases[j] })
+	m := gases[0]
+	switch r.Pick(45, 30, 25) {
+	case 1:
+		m = pick(r, gases)
+	case 2: // just below the largest: between it and the next distinct gas
+		lo := uint64(21000)
+		for _, x := range gases {
+			if x < gases[0] && x > lo {
+				lo = x
+			}
+		}
+		return lo, true
+	}
+	switch r.Pick(40, 35, 25) {
+	case 0:
+		m--
+	case 2:
+		m++
+	}
+	return m, true
 }
 
 func (g *gen) genAdd() OpJS {
@@ -686,8 +824,14 @@ func (g *gen) genHead() OpJS {
 			st.Nonce[a]++
 			st.Bal[a] -= cost.Uint64()
 		}
-		if r.Chance(25) {
+		switch r.Pick(55, 20, 25) {
+		case 1:
 			st.Bal[a] = pick(r, balDomain)
+		case 2:
+			if b, ok := g.boundaryBalance(a, st.Nonce[a]); ok {
+				st.Bal[a] = b
+				g.x.rep.Count("head:boundary-balance")
+			}
 		}
 	}
 	if r.Chance(20) {
@@ -695,7 +839,12 @@ func (g *gen) genHead() OpJS {
 	}
 	if r.Chance(3) {
 		st.MaxGas = 25000
-	} else if r.Chance(30) {
+	} else if r.Chance(12) {
+		if m, ok := g.boundaryGasLimit(); ok {
+			st.MaxGas = m
+			g.x.rep.Count("head:boundary-gaslimit")
+		}
+	} else if r.Chance(35) {
 		st.MaxGas = 5000000
 	}
 	c.Blocks = append(c.Blocks, BlockJS{Parent: base, State: st, Txs: txs})
@@ -746,6 +895,15 @@ func replaySeq(w *world, c *Case, rep *hlib.Report) *Case {
 func (c *Case) fingerprint() (string, bool) {
 	var sb strings.Builder
 	nontriv := false
+	if c.Kind == "list" { // non-trivial: a Filter removed something
+		for _, op := range c.LOps {
+			fmt.Fprintf(&sb, "%s%v%d,%d,%d;", op.K, op.Ok, len(op.Out1), len(op.Out2), len(op.Content))
+			if op.K == "filter" && len(op.Out1) > 0 {
+				nontriv = true
+			}
+		}
+		return sb.String(), nontriv
+	}
 	for _, op := range c.Ops {
 		sb.WriteString(op.K)
 		for _, v := range op.Verdicts {
